@@ -4,6 +4,8 @@ from __future__ import annotations
 import io
 import itertools
 import json
+import sys
+import re
 import threading
 import time
 
@@ -268,6 +270,9 @@ def stress(typed, n_writers, n_readers, rounds, out):
     kw = {"kind": "k1"} if typed else {}
     stop = threading.Event()
     bad = []
+    seen = {}
+    old_interval = sys.getswitchinterval()
+    sys.setswitchinterval(1e-5)      # force frequent thread switches
 
     def writer(k):
         for r in range(rounds):
@@ -280,22 +285,52 @@ def stress(typed, n_writers, n_readers, rounds, out):
                 time.sleep(0)
                 b.remove()
 
+    other_cls = TypedTree if typed else Tree
+
+    def snap_copy():
+        return [n.name for n in tree.copy()]
+
+    def snap_filtered():
+        return [n.name for n in tree.filtered(lambda n: True)]
+
+    def snap_copy_to():
+        o = other_cls("o")
+        tree.copy_to(o)
+        return [n.name for n in o]
+
+    def snap_save():
+        fp = io.StringIO()
+        tree.save(fp)
+        return re.findall(r'"(X[^"]*)"', fp.getvalue())
+
+    def snap_dict():
+        return re.findall(r'"(X[^"]*)"', json.dumps(tree.to_dict_list()))
+
+    def snap_dot():
+        fp = io.StringIO()
+        tree.to_dotfile(fp)
+        return re.findall(r'label="(X[^"]*)"', fp.getvalue())
+
+    def snap_with():
+        with tree:
+            return [n.name for n in tree]
+
+    snaps = [("copy", snap_copy), ("filtered", snap_filtered), ("copy_to", snap_copy_to), ("save", snap_save), ("to_dict_list", snap_dict),
+             ("to_dotfile", snap_dot), ("with tree", snap_with)]
+
     def reader(k):
+        i = k
         while not stop.is_set():
-            for snap in (lambda: [n.name for n in tree.copy()], lambda: json.dumps(tree.to_dict_list()).count('"X') and None):
-                try:
-                    names = [n.name for n in tree.copy()]
-                    xs = [n for n in names if n.startswith("X")]
-                    if len(xs) % 2:
-                        bad.append(f"copy() saw an odd number of paired nodes: {xs}")
-                    fp = io.StringIO()
-                    tree.save(fp)
-                    cnt = fp.getvalue().count('"X')
-                    if cnt % 2:
-                        bad.append(f"save() saw an odd number of paired nodes ({cnt})")
-                except Exception as e:  # noqa
-                    bad.append(f"reader raised {e!r}")
-                    return
+            name, fn = snaps[i % len(snaps)]
+            i += 1
+            try:
+                xs = [n for n in fn() if n.startswith("X")]
+                seen[name] = seen.get(name, 0) + 1
+                if len(xs) % 2:
+                    bad.append(f"{name}() saw an odd number of paired nodes: {xs}")
+            except Exception as e:  # noqa
+                bad.append(f"reader raised {e!r} in {name}")
+                return
 
     ws = [threading.Thread(target=writer, args=(k,), daemon=True) for k in range(n_writers)]
     rs = [threading.Thread(target=reader, args=(k,), daemon=True) for k in range(n_readers)]
@@ -306,8 +341,11 @@ def stress(typed, n_writers, n_readers, rounds, out):
     stop.set()
     for t in rs:
         t.join(timeout=3)
+    sys.setswitchinterval(old_interval)
     if any(t.is_alive() for t in ws + rs):
         bad.append("stress threads did not terminate")
+    for name, _ in snaps:
+        out.dist["stress-snapshots:" + name] += seen.get(name, 0)
     try:
         tree._self_check()
     except Exception as e:  # noqa
